@@ -6,4 +6,14 @@ TEXT = {
   "note": "Trusts the harness bit-vector model and BitvecBuilder for constructing inputs (cross-checked by the same observers). Values <= 600 bits, histories <= 90 operations.",
   "technique": "reference-model monitor over random API histories (differential against a bit-vector model), dev+release builds",
  },
+ "C05": {
+  "level": "Exploration with the (width, byte order, signedness, bit offset) grid enumerated completely on every run and values sampled: pack/unpack at API and language level against independent two's-complement arithmetic, std byte layouts and the harness's own bit packer, in release and overflow-checked builds.",
+  "note": "Trusts the harness layout function (little-endian defined on the value's 8-bit groups) and f32/f64::to_bits. Values per cell are sampled (~210 per round).",
+  "technique": "grid-enumerating differential monitor against an exact-arithmetic codec oracle, dev+release builds",
+ },
+ "C09": {
+  "level": "Exploration: every listed word is run on boundary/random operand tuples of every type combination and the outcome (value, wrap-or-overflow, division error, type-error payload) is compared with an exact oracle (checked i128, u128 wrap, own int->real and round implementations), in release and overflow-checked builds.",
+  "note": "Trusts Rust f64 + - * / % as the IEEE reference for the real path. NaN is not fed to comparisons.",
+  "technique": "differential monitor against an exact-arithmetic oracle over boundary-value operand tuples",
+ },
 }
